@@ -830,7 +830,7 @@ def _propagate_self_snapshots(fn):
                 seen += s1 + s2
                 dirty = d1 or d2
                 continue
-            if isinstance(st, (ast.Expr, ast.Assign, ast.Return, ast.Raise, ast.AugAssign, ast.AnnAssign, ast.Assert, ast.Pass)):
+            if isinstance(st, (ast.Expr, ast.Assign, ast.Return, ast.Raise, ast.AugAssign, ast.AnnAssign, ast.Assert, ast.Pass, ast.Delete)):
                 if not has_exec(st):
                     seen += m
                     continue
@@ -1112,9 +1112,12 @@ def _lower_bool_flags(fn):
         for c in ast.iter_child_nodes(n):
             parents[id(c)] = n
 
-    def only_tested(name):
+    def only_tested(name, own_value=None):
+        inside = set(id(y) for y in ast.walk(own_value)) if own_value is not None else set()
         for n in ast.walk(fn):
             if isinstance(n, ast.Name) and n.id == name and isinstance(n.ctx, ast.Load):
+                if id(n) in inside:
+                    continue        # an operand of the very condition that is being lowered: it becomes a test
                 cur = n
                 par = parents.get(id(cur))
                 while isinstance(par, (ast.UnaryOp, ast.BoolOp)) and (not isinstance(par, ast.UnaryOp) or isinstance(par.op, ast.Not)):
@@ -1134,7 +1137,7 @@ def _lower_bool_flags(fn):
             if isinstance(st, ast.Assign) and len(st.targets) == 1 and isinstance(st.targets[0], ast.Name):
                 v = st.value
                 core = v.operand if isinstance(v, ast.UnaryOp) and isinstance(v.op, ast.Not) else v
-                if isinstance(core, ast.BoolOp) and only_tested(st.targets[0].id):
+                if isinstance(core, ast.BoolOp) and only_tested(st.targets[0].id, v):
                     def mk(c):
                         a = ast.Assign(targets=[ast.Name(id=st.targets[0].id, ctx=ast.Store())], value=ast.Constant(value=c))
                         return ast.copy_location(a, st)
@@ -1143,6 +1146,152 @@ def _lower_bool_flags(fn):
                     ast.fix_missing_locations(new)
                     stmts[stmts.index(st)] = new
     rewrite(fn.body)
+
+
+def _sink_flag_test(fn):
+    """   if C1: flag = True; v = A                      if C1: flag = True; v = A; BODY
+          elif C2: flag = True; v = B          ->       elif C2: flag = True; v = B; BODY
+          else: flag = False; v = None                   else: flag = False; v = None
+          if flag: BODY
+    when flag is a local that every arm sets to a boolean constant as a plain statement and that is read nowhere but in the test
+    that follows immediately: the test's outcome is known in each arm, so its body is moved there (the found-flag idiom of a
+    lookup helper that returns `(found, value)`)."""
+    loads = {}
+    for n in ast.walk(fn):
+        if isinstance(n, ast.Name) and isinstance(n.ctx, ast.Load):
+            loads[n.id] = loads.get(n.id, 0) + 1
+
+    def leaves(st):
+        """leaf statement lists of an if/elif/else chain, or None if there is no final else"""
+        out = [st.body]
+        if len(st.orelse) == 1 and isinstance(st.orelse[0], ast.If):
+            sub = leaves(st.orelse[0])
+            if sub is None:
+                return None
+            return out + sub
+        if not st.orelse:
+            return None
+        return out + [st.orelse]
+
+    def const_of(stmts, flag):
+        val = None
+        for x in stmts:
+            if isinstance(x, ast.Assign) and len(x.targets) == 1 and isinstance(x.targets[0], ast.Name) and x.targets[0].id == flag:
+                if isinstance(x.value, ast.Constant) and isinstance(x.value.value, bool):
+                    val = x.value.value
+                else:
+                    return None
+            elif any(isinstance(y, ast.Name) and y.id == flag and isinstance(y.ctx, ast.Store) for y in ast.walk(x)):
+                return None
+        return val
+
+    def rewrite(stmts):
+        k = 0
+        while k < len(stmts):
+            st = stmts[k]
+            for fld in ("body", "orelse", "finalbody"):
+                sub = getattr(st, fld, None)
+                if isinstance(sub, list) and not isinstance(st, (ast.FunctionDef, ast.AsyncFunctionDef, ast.ClassDef)):
+                    rewrite(sub)
+            for h in getattr(st, "handlers", []) or []:
+                rewrite(h.body)
+            if isinstance(st, ast.If) and k + 1 < len(stmts) and isinstance(stmts[k + 1], ast.If) and not stmts[k + 1].orelse:
+                t = stmts[k + 1].test
+                pos = True
+                if isinstance(t, ast.UnaryOp) and isinstance(t.op, ast.Not):
+                    t, pos = t.operand, False
+                if isinstance(t, ast.Name) and loads.get(t.id, 0) == 1:
+                    lv = leaves(st)
+                    if lv is not None and all(not (a and isinstance(a[-1], (ast.Return, ast.Raise, ast.Continue, ast.Break))) for a in lv):
+                        consts = [const_of(a, t.id) for a in lv]
+                        if all(c is not None for c in consts):
+                            body = stmts[k + 1].body
+                            for a, c in zip(lv, consts):
+                                if c == pos:
+                                    a.extend(copy.deepcopy(body))
+                            del stmts[k + 1]
+                            continue
+            k += 1
+    rewrite(fn.body)
+
+
+def _sink_tail_return(fn):
+    """   if C: t = A                      if C: t = A; return t
+          else: t = B; S        ->         else: t = B; S; return t
+          return t
+    (single-exit form back to one return per arm).  Applied when the statement before the tail `return t` is an if/elif/else
+    chain with a final else, t is a plain local, and no arm already leaves the function or loop."""
+    def leaves(st):
+        out = [st.body]
+        if len(st.orelse) == 1 and isinstance(st.orelse[0], ast.If):
+            sub = leaves(st.orelse[0])
+            return None if sub is None else out + sub
+        if not st.orelse:
+            return None
+        return out + [st.orelse]
+
+    def rewrite(stmts):
+        for st in list(stmts):
+            for fld in ("body", "orelse", "finalbody"):
+                sub = getattr(st, fld, None)
+                if isinstance(sub, list) and not isinstance(st, (ast.FunctionDef, ast.AsyncFunctionDef, ast.ClassDef)):
+                    rewrite(sub)
+            for h in getattr(st, "handlers", []) or []:
+                rewrite(h.body)
+        if len(stmts) >= 2 and isinstance(stmts[-1], ast.Return) and isinstance(stmts[-1].value, ast.Name) and isinstance(stmts[-2], ast.If):
+            t = stmts[-1].value.id
+            lv = leaves(stmts[-2])
+            if lv is not None and all(a and not isinstance(a[-1], (ast.Return, ast.Raise, ast.Continue, ast.Break)) for a in lv) \
+                    and all(any(isinstance(x, ast.Assign) and any(isinstance(y, ast.Name) and y.id == t for y in x.targets) for x in a) for a in lv):
+                ret = stmts.pop()
+                for a in lv:
+                    a.append(copy.deepcopy(ret))
+    if isinstance(fn, (ast.FunctionDef, ast.AsyncFunctionDef)):
+        rewrite(fn.body)
+
+
+def _return_temp(fn):
+    """`t = E; return t` -> `return E` (adjacent statements; whatever else defines or reads t elsewhere is not affected: this
+    return reads this definition, and nothing after a return reads it)."""
+    def rewrite(stmts):
+        k = 0
+        while k < len(stmts):
+            st = stmts[k]
+            for fld in ("body", "orelse", "finalbody"):
+                sub = getattr(st, fld, None)
+                if isinstance(sub, list) and not isinstance(st, (ast.FunctionDef, ast.AsyncFunctionDef, ast.ClassDef)):
+                    rewrite(sub)
+            for h in getattr(st, "handlers", []) or []:
+                rewrite(h.body)
+            if isinstance(st, ast.Assign) and len(st.targets) == 1 and isinstance(st.targets[0], ast.Name) and k + 1 < len(stmts) \
+                    and isinstance(stmts[k + 1], ast.Return) and isinstance(stmts[k + 1].value, ast.Name) and stmts[k + 1].value.id == st.targets[0].id \
+                    and not any(isinstance(y, (ast.Yield, ast.YieldFrom, ast.Await)) for y in ast.walk(st.value)):
+                new = ast.Return(value=st.value)
+                ast.copy_location(new, st)
+                stmts[k:k + 2] = [new]
+                continue
+            k += 1
+    rewrite(fn.body)
+
+
+def post_inline_normalize(tree):
+    """Expression-position inlining leaves conditional expressions and tuple assignments behind: bring the functions back to the
+    statement forms the rules are written against."""
+    fns = [n for n in ast.walk(tree) if isinstance(n, (ast.FunctionDef, ast.AsyncFunctionDef))]
+    for fn in fns:
+        _lower_ifexp(fn)
+    for fn in fns:
+        _split_tuple_assigns(fn)
+    for fn in fns:
+        _sink_flag_test(fn)
+    for fn in fns:
+        _inline_single_use_temps(fn)
+    for fn in fns:
+        _return_temp(fn)
+    for n in ast.walk(tree):
+        if isinstance(n, (ast.expr, ast.stmt)) and not hasattr(n, "lineno"):
+            n.lineno = 1
+            n.col_offset = 0
 
 
 def _lower_ifexp(fn):
@@ -1373,6 +1522,9 @@ def normalize_module(tree):
     stable = frozenset(k for k, v in counts.items() if v == 1)
     for fn in [n for n in ast.walk(tree) if isinstance(n, (ast.FunctionDef, ast.AsyncFunctionDef))]:
         _propagate_self_snapshots(fn)
+    for fn in [n for n in ast.walk(tree) if isinstance(n, (ast.FunctionDef, ast.AsyncFunctionDef))]:
+        _sink_tail_return(fn)
+        _return_temp(fn)
     for fn in [n for n in ast.walk(tree) if isinstance(n, (ast.FunctionDef, ast.AsyncFunctionDef))]:
         _propagate_aliases(fn, frozenset(class_level - stored_anywhere), stable)
 
